@@ -244,8 +244,10 @@ pub proof fn lemma_lvl_of(z: Seq<ZoomInfo>, k: int)
         r is Ok ==> final(file).wf() && final(file).pos() == final(file).data().len(),
         [[L: nothing_kept_nothing_written]]
         r matches Ok(v) ==> (v@.len() == 0 ==> final(file).data() == old(file).data()),
-        [[L: auto/count_capped_by_max_zooms_but_one_level_even_if_zero]]
-        r matches Ok(v) ==> (options.manual_zoom_sizes is None ==> v@.len() <= umax(options.max_zooms as int, 1)),
+        [[L: auto/count_capped_by_max_zooms]]
+        r matches Ok(v) ==> (options.manual_zoom_sizes is None && options.max_zooms >= 1 ==> v@.len() <= options.max_zooms),
+        [[L: auto/max_zooms_zero_keeps_at_most_one_level]]
+        r matches Ok(v) ==> (options.manual_zoom_sizes is None && options.max_zooms == 0 ==> v@.len() <= 1),
         [[L: auto/kept_level_at_most_half_the_data]]
         r matches Ok(v) ==> (options.manual_zoom_sizes is None ==> forall|j: int| 0 <= j < v@.len() ==>
             zooms@[lvl_of(zooms@, (#[trigger] v@[j]).reduction_level)].data.staged().len() <= data_size / 2),
